@@ -325,3 +325,18 @@ def float_literal(x: float):
     if x != x or x in (float("inf"), float("-inf")):
         return x
     return Fraction(str(x))
+
+
+class GhostSeq:
+    """Ghost sequence defined by recursion over a symbolic sequence: G(0)=init, G(k+1)=step(G(k), elem_k)."""
+
+    def __init__(self, name, arrshape, arrays):
+        self.name = name
+        self.arrshape = arrshape
+        self.arrays = arrays
+
+    def at(self, i):
+        return self.arrshape.select(self.arrays, i)
+
+    def __repr__(self):
+        return f"GhostSeq<{self.name}>"
